@@ -883,7 +883,31 @@ def gen_case(rng, idx):
 # ----------------------------------------------------------------------------- running a case
 def stmts_of(case):
     """parallel statement lists: (noulith source, model s-expression, tag)"""
+    if case.get("raw"):
+        return _raw_stmts(case)
     return _stmts(case, None if has_ext(case["lam"]) else sx)
+
+
+def _raw_stmts(case):
+    """a corpus case written directly in Noulith (constructs the generator's AST does not have):
+    implementation-only checks; `freezes` says whether freezing must succeed"""
+    out = [(s, "(null)", "outer") for s in case["outer"]]
+    out.append((f"fu := {case['lam']}", "(null)", "decl-unfrozen"))
+    out.append((f"ff := freeze ({case['lam']})", "(null)", "freeze"))
+    for pre in ("ufUF"[:2], "ufUF"[2:]):
+        if pre == "UF":
+            out.append((case["mut"], "(null)", "mut"))
+        for i, a in enumerate(case["args"]):
+            al = ", ".join(str(x) for x in a)
+            out.append((f"fu({al})", "(null)", f"{pre[0]}{i}"))
+            out.append((f"ff({al})", "(null)", f"{pre[1]}{i}"))
+    return out
+
+
+class RawInfo:
+    def __init__(self, case):
+        self.fails = [] if case.get("freezes", True) else [(case.get("fail_class", "name"), "declared in the corpus case")]
+        self.resolved, self.k1, self.k2 = set(case.get("resolved", ["x"])), set(), set()
 
 
 def _stmts(case, sx):
@@ -992,7 +1016,7 @@ def check_case(ctx, case, impl_res, model_line, stats):
         if t == "outer" and r.get("status") != "ok":
             problems.append(("correspondence", f"outer declaration failed: {r}", None))
             return problems
-    info = analyse(case["lam"], case["outer_names"])
+    info = RawInfo(case) if case.get("raw") else analyse(case["lam"], case["outer_names"])
     case["analysis"] = {"fails": info.fails[:3], "resolved": sorted(info.resolved), "k1": sorted(info.k1), "k2": sorted(info.k2)}
     # ---- A. freezing fails exactly when the flat scope analysis says so, at freeze time
     fr = results[tags.index("freeze")]
@@ -1009,7 +1033,7 @@ def check_case(ctx, case, impl_res, model_line, stats):
         problems.append(("correspondence", f"freeze failed with a {fr.get('class')} error, the analysis expected {info.fails[0]}", None))
     # ---- B/C. frozen vs unfrozen, before and after the mutation
     if not impl_failed:
-        mut_names = mutated_names(case["mut"])
+        mut_names = set() if case.get("raw") else mutated_names(case["mut"])
         for i in range(len(case["args"])):
             u, f, U, F = imp[f"u{i}"], imp[f"f{i}"], imp[f"U{i}"], imp[f"F{i}"]
             stats["calls"] += 4
@@ -1062,10 +1086,10 @@ def run_cases(ctx, cases, runner, stats):
     hc = []
     for i, c in enumerate(cases):
         st = stmts_of(c)
-        hc.append({"id": i, "fuel": 60000, "fresh": c["mut"][0] in ("swap", "prec") and c["mut"][1] in BUILTINS,
+        hc.append({"id": i, "fuel": 60000, "fresh": bool(c.get("raw")) or (c["mut"][0] in ("swap", "prec") and c["mut"][1] in BUILTINS),
                    "stmts": [s for s, _, _ in st]})
     res = common.run_harness(common.harness_bin("c17"), hc, timeout=30.0)
-    with_model = [i for i, c in enumerate(cases) if not has_ext(c["lam"])]
+    with_model = [i for i, c in enumerate(cases) if not c.get("raw") and not has_ext(c["lam"])]
     mlines = ["( " + " ".join(m for _, m, _ in stmts_of(cases[i])) + " )" for i in with_model]
     mout = common.run_model(runner, mlines) if runner else [None] * len(with_model)
     mres = [None] * len(cases)
@@ -1082,7 +1106,7 @@ def run_cases(ctx, cases, runner, stats):
 
 def replay_of(case, what):
     st = stmts_of(case)
-    return {"case": {k: case[k] for k in ("idx", "outer", "precs", "lam", "args", "mut", "kind", "outer_names")},
+    return {"case": {k: case[k] for k in ("idx", "outer", "precs", "lam", "args", "mut", "kind", "outer_names", "raw", "freezes", "fail_class") if k in case},
             "program": [s for s, _, _ in st], "model_input": "( " + " ".join(m for _, m, _ in st) + " )",
             "implementation": case.get("impl"), "model": case.get("model"), "analysis": case.get("analysis"), "what": what}
 
@@ -1124,6 +1148,13 @@ def corpus_cases():
 
 def norm_case(c):
     c = dict(c)
+    if c.get("raw"):
+        c["args"] = [tuple(a) for a in c["args"]]
+        c.setdefault("kind", "raw")
+        c.setdefault("idx", -1)
+        c.setdefault("precs", {})
+        c.setdefault("outer_names", [])
+        return c
     c["outer"] = [to_list(x) for x in c["outer"]]
     c["lam"] = to_list(c["lam"])
     c["args"] = [tuple(a) for a in c["args"]]
@@ -1146,7 +1177,7 @@ def run(ctx):
     stats = {k: 0 for k in ("freeze_ok", "freeze_fail", "calls", "unfrozen_changed", "model_compared", "model_no_opinion", "known_k1", "known_k2")}
     allp = run_cases(ctx, cases, runner, stats)
     report(ctx, cases, allp, stats)
-    srcs = {noul(c["lam"]) for c in cases if nontrivial(c)}
+    srcs = {c["lam"] if c.get("raw") else noul(c["lam"]) for c in cases if nontrivial(c)}
     kinds = {}
     for c in cases:
         kinds[c["kind"]] = kinds.get(c["kind"], 0) + 1
@@ -1160,7 +1191,8 @@ def run(ctx):
                 count(x)
 
     for c in cases:
-        count(c["lam"])
+        if not c.get("raw"):
+            count(c["lam"])
     ctx.coverage.update({
         "evaluations": stats["calls"] + stats["freeze_ok"] + stats["freeze_fail"],
         "distinct_nontrivial": len(srcs),
@@ -1170,8 +1202,9 @@ def run(ctx):
         "samples": [{"program": [s for s, _, _ in stmts_of(c)], "implementation": c.get("impl"), "model": c.get("model"), "analysis": c.get("analysis")}
                     for c in cases[::max(1, len(cases) // 10)]][:10],
         "lambdas": len(cases), "corpus": len(cases) - n, "case_kinds": kinds, "syntax_nodes": feat,
-        "mutation_kinds": {k: sum(1 for c in cases if c["mut"][0] == k) for k in ("data", "swap", "prec")},
-        "lambdas_outside_model_vocabulary": sum(1 for c in cases if has_ext(c["lam"])),
+        "mutation_kinds": {k: sum(1 for c in cases if not c.get("raw") and c["mut"][0] == k) for k in ("data", "swap", "prec")},
+        "lambdas_outside_model_vocabulary": sum(1 for c in cases if c.get("raw") or has_ext(c["lam"])),
+        "raw_corpus_cases": sum(1 for c in cases if c.get("raw")),
         **stats,
     })
     ctx.assumptions += ["programs are drawn from the modelled vocabulary (Lang/FreezeLang.v); a statement on which the model leaves the vocabulary "
